@@ -376,6 +376,38 @@ func c13DefaultRoutes(f c13FamT) int {
 	return n
 }
 
+// c13NewNS creates a network namespace, retrying a few times: under heavy parallel load the bind mount behind
+// testutils.NewNS fails now and then. A namespace that still cannot be created is reported to the caller, never
+// dereferenced.
+func c13NewNS() (ns.NetNS, error) {
+	var err error
+	for i := 0; i < 5; i++ {
+		var n ns.NetNS
+		if n, err = testutils.NewNS(); err == nil && n != nil {
+			return n, nil
+		}
+		time.Sleep(time.Duration(50*(i+1)) * time.Millisecond)
+	}
+	if err == nil {
+		err = fmt.Errorf("no namespace returned")
+	}
+	return nil, err
+}
+
+// c13CloseAll releases whatever namespaces were created for one history.
+func c13CloseAll(pods map[string]*c13Pod, host ns.NetNS) {
+	for _, p := range pods {
+		if p.nsp != nil {
+			_ = p.nsp.Close()
+			_ = testutils.UnmountNS(p.nsp)
+		}
+	}
+	if host != nil {
+		_ = host.Close()
+		_ = testutils.UnmountNS(host)
+	}
+}
+
 func c13EnableForwarding() bool {
 	ok := os.WriteFile("/proc/sys/net/ipv4/ip_forward", []byte("1"), 0644) == nil
 	for _, k := range []string{"all", "default"} {
@@ -477,15 +509,27 @@ func TestVerifC13Kernel(t *testing.T) {
 				r.NotExhaustive()
 				break
 			}
-			hostNS, err := testutils.NewNS()
+			hostNS, err := c13NewNS()
 			if err != nil {
 				r.NotExhaustive()
+				r.Add("histories_skipped_no_namespace", 1)
 				r.Set("skipped", "cannot create network namespaces: "+err.Error())
-				break
+				continue
 			}
 			pods := map[string]*c13Pod{"A": {name: "A", veth: "calia", ip4: "169.10.0.10", ip6: "fd10::10"}, "B": {name: "B", veth: "calib", ip4: "169.10.0.11", ip6: "fd10::11"}, "C": {name: "C", veth: "calic", ip4: "169.10.0.10", ip6: "fd10::10"}}
+			nsOK := true
 			for _, p := range pods {
-				p.nsp, _ = testutils.NewNS()
+				if p.nsp, err = c13NewNS(); err != nil {
+					nsOK = false
+				}
+			}
+			if !nsOK {
+				// a history that cannot get its namespaces is skipped and counted, never run half-way
+				r.NotExhaustive()
+				r.Add("histories_skipped_no_namespace", 1)
+				r.Set("skipped", "cannot create network namespaces: "+fmt.Sprint(err))
+				c13CloseAll(pods, hostNS)
+				continue
 			}
 			hist := "family " + fam + ": " + strings.Join(seq, " ; ")
 			_ = hostNS.Do(func(ns.NetNS) error {
@@ -605,12 +649,7 @@ func TestVerifC13Kernel(t *testing.T) {
 				}
 				return nil
 			})
-			for _, p := range pods {
-				_ = p.nsp.Close()
-				_ = testutils.UnmountNS(p.nsp)
-			}
-			_ = hostNS.Close()
-			_ = testutils.UnmountNS(hostNS)
+			c13CloseAll(pods, hostNS)
 			r.Case(fmt.Sprintf("%d/%s", len(seq), hist), map[string]any{"family": fam, "history": seq})
 			r.Traces(1)
 			r.Transitions(int64(len(seq)))
@@ -661,15 +700,26 @@ func TestVerifC13KernelExclusive(t *testing.T) {
 					r.NotExhaustive()
 					break
 				}
-				hostNS, err := testutils.NewNS()
+				hostNS, err := c13NewNS()
 				if err != nil {
 					r.NotExhaustive()
+					r.Add("histories_skipped_no_namespace", 1)
 					r.Set("skipped", "cannot create network namespaces: "+err.Error())
-					break
+					continue
 				}
 				pods := map[string]*c13Pod{"A": {name: "A", veth: "calia", ip4: "169.10.0.10", ip6: "fd10::10"}, "B": {name: "B", veth: "calib", ip4: "169.10.0.11", ip6: "fd10::11"}}
+				nsOK := true
 				for _, p := range pods {
-					p.nsp, _ = testutils.NewNS()
+					if p.nsp, err = c13NewNS(); err != nil {
+						nsOK = false
+					}
+				}
+				if !nsOK {
+					r.NotExhaustive()
+					r.Add("histories_skipped_no_namespace", 1)
+					r.Set("skipped", "cannot create network namespaces: "+fmt.Sprint(err))
+					c13CloseAll(pods, hostNS)
+					continue
 				}
 				hist := fmt.Sprintf("family %s multi=%v: %s", fam, multi, strings.Join(seq, " ; "))
 				_ = hostNS.Do(func(ns.NetNS) error {
@@ -787,12 +837,7 @@ func TestVerifC13KernelExclusive(t *testing.T) {
 					}
 					return nil
 				})
-				for _, p := range pods {
-					_ = p.nsp.Close()
-					_ = testutils.UnmountNS(p.nsp)
-				}
-				_ = hostNS.Close()
-				_ = testutils.UnmountNS(hostNS)
+				c13CloseAll(pods, hostNS)
 				r.Case(fmt.Sprintf("%d/%s", len(seq), hist), map[string]any{"family": fam, "multi": multi, "history": seq})
 				r.Traces(1)
 				r.Transitions(int64(len(seq)))
